@@ -64,18 +64,42 @@ theorem streamW_append_eos (b : List Item) (h : Item.eos ∉ b) :
 theorem streamW_nil : streamW (some []) = 1 := by simp [streamW]
 theorem streamW_none : streamW none = 0 := rfl
 
-/-- a segment that changes neither the queues of the scheduler, nor the hand, nor `closed` -/
-theorem measure_lt_of_local {s s' : State} (hh : s'.hand = s.hand) (hp : s'.pendingQ = s.pendingQ)
-    (hr : s'.running = s.running) (hc : s'.closed = s.closed)
-    (hle : ∀ x, instW s' x ≤ instW s x) (w : Wid) (hw : w ∈ s.pendingQ ∨ w ∈ s.running)
-    (hlt : instW s' w < instW s w) : measure s' < measure s := by
-  unfold measure
-  rw [hh, hp, hr, hc]
-  have h1 : sumW (instW s') s.pendingQ ≤ sumW (instW s) s.pendingQ := sumW_le (fun x _ => hle x)
-  have h2 : sumW (instW s') s.running ≤ sumW (instW s) s.running := sumW_le (fun x _ => hle x)
+theorem mem_onKeys {φ : Key → Bool} {l : List Wid} {w : Wid} : w ∈ onKeys φ l ↔ w ∈ l ∧ φ w.key = true := by
+  simp [onKeys]
+
+/-- what one segment of key `k` does to the outstanding work of the keys selected by `φ`:
+    strictly less if `k` is selected, nothing at all otherwise -/
+def Effect (φ : Key → Bool) (k : Key) (s s' : State) : Prop :=
+  (φ k = true → measureOn φ s' < measureOn φ s) ∧ (φ k = false → measureOn φ s' = measureOn φ s)
+
+theorem instW_eq_of {s s' : State} {x : Wid} (hpc : s'.pc x = s.pc x)
+    (hst : s'.streams x.key = s.streams x.key) : instW s' x = instW s x := by
+  simp [instW, hpc, hst]
+
+/-- frame: the selected keys' queues entries, hand and instances are untouched -/
+theorem measureOn_frame {φ : Key → Bool} {s s' : State} (hh : handW φ s' = handW φ s)
+    (hp : onKeys φ s'.pendingQ = onKeys φ s.pendingQ) (hr : onKeys φ s'.running = onKeys φ s.running)
+    (hinst : ∀ x, φ x.key = true → instW s' x = instW s x) : measureOn φ s' = measureOn φ s := by
+  unfold measureOn
+  rw [hh, hp, hr]
+  rw [sumW_congr (l := onKeys φ s.pendingQ) (fun x hx => hinst x (mem_onKeys.1 hx).2),
+      sumW_congr (l := onKeys φ s.running) (fun x hx => hinst x (mem_onKeys.1 hx).2)]
+
+/-- a segment that changes neither the queues of the scheduler nor the hand -/
+theorem measureOn_lt_of_local {φ : Key → Bool} {s s' : State} (hh : s'.hand = s.hand)
+    (hp : s'.pendingQ = s.pendingQ) (hr : s'.running = s.running)
+    (hle : ∀ x, instW s' x ≤ instW s x) (w : Wid) (hφ : φ w.key = true)
+    (hw : w ∈ s.pendingQ ∨ w ∈ s.running) (hlt : instW s' w < instW s w) :
+    measureOn φ s' < measureOn φ s := by
+  unfold measureOn handW
+  rw [hh, hp, hr]
+  have h1 : sumW (instW s') (onKeys φ s.pendingQ) ≤ sumW (instW s) (onKeys φ s.pendingQ) :=
+    sumW_le (fun x _ => hle x)
+  have h2 : sumW (instW s') (onKeys φ s.running) ≤ sumW (instW s) (onKeys φ s.running) :=
+    sumW_le (fun x _ => hle x)
   rcases hw with hw | hw
-  · have := sumW_lt (fun x _ => hle x) hw hlt; omega
-  · have := sumW_lt (fun x _ => hle x) hw hlt; omega
+  · have := sumW_lt (l := onKeys φ s.pendingQ) (fun x _ => hle x) (mem_onKeys.2 ⟨hw, hφ⟩) hlt; omega
+  · have := sumW_lt (l := onKeys φ s.running) (fun x _ => hle x) (mem_onKeys.2 ⟨hw, hφ⟩) hlt; omega
 
 /-- a segment of the live instance `w`: only `w`'s program counter and `w.key`'s stream change -/
 theorem instW_le_of_local {s s' : State} (hi : Inv s) {w : Wid} {p : Pc} (hw : s.pc w = some p)
@@ -95,125 +119,117 @@ theorem instW_le_of_local {s s' : State} (hi : Inv s) {w : Wid} {p : Pc} (hw : s
         simp [hst x.key hk]
       · simp [hql]
 
-theorem step_measure_local {s s' : State} (hi : Inv s) {w : Wid} {p : Pc} (hw : s.pc w = some p)
-    (hlive : p.live = true) (hne : p ≠ .pending)
+theorem local_effect (φ : Key → Bool) {s s' : State} (hi : Inv s) {w : Wid} {p : Pc}
+    (hw : s.pc w = some p) (hlive : p.live = true)
     (hh : s'.hand = s.hand) (hp : s'.pendingQ = s.pendingQ) (hr : s'.running = s.running)
-    (hc : s'.closed = s.closed) (hpc : ∀ x, x ≠ w → s'.pc x = s.pc x)
+    (hpc : ∀ x, x ≠ w → s'.pc x = s.pc x)
     (hst : ∀ k, k ≠ w.key → s'.streams k = s.streams k) (hlt : instW s' w < instW s w) :
-    measure s' < measure s :=
-  measure_lt_of_local hh hp hr hc
-    (instW_le_of_local hi hw hlive hpc hst (Nat.le_of_lt hlt)) w
-    (Or.inr ((hi.run_iff w).2 ⟨p, hw, hne⟩)) hlt
+    Effect φ w.key s s' := by
+  constructor
+  · intro hφ
+    have hmem : w ∈ s.pendingQ ∨ w ∈ s.running := by
+      by_cases hpp : p = .pending
+      · subst hpp; exact Or.inl ((hi.pend_iff w).2 hw)
+      · exact Or.inr ((hi.run_iff w).2 ⟨p, hw, hpp⟩)
+    exact measureOn_lt_of_local hh hp hr
+      (instW_le_of_local hi hw hlive hpc hst (Nat.le_of_lt hlt)) w hφ hmem hlt
+  · intro hφ
+    refine measureOn_frame (by simp [handW, hh]) (by rw [hp]) (by rw [hr]) ?_
+    intro x hx
+    have hk : x.key ≠ w.key := fun hk => by rw [hk, hφ] at hx; cases hx
+    have hxw : x ≠ w := fun h => hk (h ▸ rfl)
+    exact instW_eq_of (hpc x hxw) (hst x.key hk)
 
-theorem measure_take {s s' : State} {w : Wid} {e : Ev} (hi : Inv s)
-    (h : step s (.take w e) = some s') : measure s' < measure s := by
+theorem effect_take {φ : Key → Bool} {s s' : State} {w : Wid} {e : Ev} (hi : Inv s)
+    (h : step s (.take w e) = some s') : Effect φ w.key s s' := by
   step_cases h
   rename_i hg _ e' rest hst he
-  refine step_measure_local hi (w := w) hg.2 rfl (by simp) rfl rfl rfl rfl
+  refine local_effect φ hi (w := w) hg.2 rfl rfl rfl rfl
     (by intro x hx; simp [hx]) (by intro k hk; simp [hk]) ?_
   simp [instW, hg.2, hst, pcW, streamW_cons_ev] <;> omega
 
-theorem measure_ttake {s s' : State} {w : Wid} {e : Ev} (hi : Inv s)
-    (h : step s (.timeoutTake w e) = some s') : measure s' < measure s := by
+theorem effect_ttake {φ : Key → Bool} {s s' : State} {w : Wid} {e : Ev} (hi : Inv s)
+    (h : step s (.timeoutTake w e) = some s') : Effect φ w.key s s' := by
   step_cases h
   rename_i hg _ e' rest hst he
-  refine step_measure_local hi (w := w) hg.2 rfl (by simp) rfl rfl rfl rfl
+  refine local_effect φ hi (w := w) hg.2 rfl rfl rfl rfl
     (by intro x hx; simp [hx]) (by intro k hk; simp [hk]) ?_
   simp [instW, hg.2, hst, pcW, streamW_cons_ev] <;> omega
 
-theorem measure_start {s s' : State} {w : Wid} (hi : Inv s)
-    (h : step s (.start w) = some s') : measure s' < measure s := by
+theorem effect_start {φ : Key → Bool} {s s' : State} {w : Wid} (hi : Inv s)
+    (h : step s (.start w) = some s') : Effect φ w.key s s' := by
   step_cases h
   rename_i hg
-  refine step_measure_local hi (w := w) hg.2 rfl (by simp) rfl rfl rfl rfl
+  refine local_effect φ hi (w := w) hg.2 rfl rfl rfl rfl
     (by intro x hx; simp [hx]) (by intro k hk; simp [hk]) ?_
   simp [instW, hg.2, pcW] <;> omega
 
-theorem measure_finish {s s' : State} {w : Wid} (hi : Inv s)
-    (h : step s (.finish w) = some s') : measure s' < measure s := by
+theorem effect_finish {φ : Key → Bool} {s s' : State} {w : Wid} (hi : Inv s)
+    (h : step s (.finish w) = some s') : Effect φ w.key s s' := by
   step_cases h
   rename_i hc _ e hp
-  refine step_measure_local hi (w := w) hp rfl (by simp) rfl rfl rfl rfl
+  refine local_effect φ hi (w := w) hp rfl rfl rfl rfl
     (by intro x hx; simp [hx]) (by intro k hk; simp [hk]) ?_
   simp [instW, hp, pcW] <;> omega
 
-theorem measure_fail {s s' : State} {w : Wid} (hi : Inv s)
-    (h : step s (.fail w) = some s') : measure s' < measure s := by
+theorem effect_fail {φ : Key → Bool} {s s' : State} {w : Wid} (hi : Inv s)
+    (h : step s (.fail w) = some s') : Effect φ w.key s s' := by
   step_cases h
   rename_i hc _ e hp
-  refine step_measure_local hi (w := w) hp rfl (by simp) rfl rfl rfl rfl
+  refine local_effect φ hi (w := w) hp rfl rfl rfl rfl
     (by intro x hx; simp [hx]) (by intro k hk; simp [hk]) ?_
   simp [instW, hp, pcW] <;> omega
 
-theorem measure_retire {s s' : State} {w : Wid} (hi : Inv s)
-    (h : step s (.retire w) = some s') : measure s' < measure s := by
+theorem effect_retire {φ : Key → Bool} {s s' : State} {w : Wid} (hi : Inv s)
+    (h : step s (.retire w) = some s') : Effect φ w.key s s' := by
   step_cases h
   rename_i hg
-  refine step_measure_local hi (w := w) hg.2.2.1 rfl (by simp) rfl rfl rfl rfl
+  refine local_effect φ hi (w := w) hg.2.2.1 rfl rfl rfl rfl
     (by intro x hx; simp [hx]) (by intro k hk; simp [hk]) ?_
   simp [instW, hg.2.2.1, hg.2.2.2, pcW, streamW_nil] <;> omega
 
-theorem measure_eosExit {s s' : State} {w : Wid} (hi : Inv s)
-    (h : step s (.eosExit w) = some s') : measure s' < measure s := by
+theorem effect_eosExit {φ : Key → Bool} {s s' : State} {w : Wid} (hi : Inv s)
+    (h : step s (.eosExit w) = some s') : Effect φ w.key s s' := by
   step_cases h
   rename_i hg _ tail hst
-  refine step_measure_local hi (w := w) hg.2 rfl (by simp) rfl rfl rfl rfl
+  refine local_effect φ hi (w := w) hg.2 rfl rfl rfl rfl
     (by intro x hx; simp [hx]) (by intro k hk; simp [hk]) ?_
   simp [instW, hg.2, hst, pcW] <;> omega
 
-theorem measure_kill {s s' : State} {w : Wid} (hi : Inv s)
-    (h : step s (.kill w) = some s') : measure s' < measure s := by
+theorem effect_kill {φ : Key → Bool} {s s' : State} {w : Wid} (hi : Inv s)
+    (h : step s (.kill w) = some s') : Effect φ w.key s s' := by
   step_cases h
   · rename_i hc _ hp
-    refine step_measure_local hi (w := w) hp rfl (by simp) rfl rfl rfl rfl
+    refine local_effect φ hi (w := w) hp rfl rfl rfl rfl
       (by intro x hx; simp [hx]) (by intro k hk; simp [hk]) ?_
     simp [instW, hp, pcW] <;> omega
   · rename_i hc _ hp
-    refine step_measure_local hi (w := w) hp rfl (by simp) rfl rfl rfl rfl
+    refine local_effect φ hi (w := w) hp rfl rfl rfl rfl
       (by intro x hx; simp [hx]) (by intro k hk; simp [hk]) ?_
     simp [instW, hp, pcW] <;> omega
   · rename_i hc _ e hp
-    refine step_measure_local hi (w := w) hp rfl (by simp) rfl rfl rfl rfl
+    refine local_effect φ hi (w := w) hp rfl rfl rfl rfl
       (by intro x hx; simp [hx]) (by intro k hk; simp [hk]) ?_
     simp [instW, hp, pcW] <;> omega
   · rename_i hc _ hp
-    refine step_measure_local hi (w := w) hp rfl (by simp) rfl rfl rfl rfl
+    refine local_effect φ hi (w := w) hp rfl rfl rfl rfl
       (by intro x hx; simp [hx]) (by intro k hk; simp [hk]) ?_
     simp [instW, hp, pcW] <;> omega
 
-theorem instW_congr {s s' : State} (hpc : s'.pc = s.pc) (hst : s'.streams = s.streams) :
-    instW s' = instW s := by
-  funext x; simp [instW, hpc, hst]
-
-theorem measure_eosPut {s s' : State} {k : Key} (hi : Inv s)
-    (h : step s (.eosPut k) = some s') : measure s' < measure s := by
+theorem effect_eosPut {φ : Key → Bool} {s s' : State} {k : Key} (hi : Inv s)
+    (h : step s (.eosPut k) = some s') : Effect φ k s s' := by
   step_cases h
   rename_i hg _ b hst hne
   obtain ⟨w, p, hk, hp, hlive⟩ := hi.stream_live hg.2 k (by simp [hst])
   subst hk
-  have hlt : instW { s with streams := upd s.streams w.key (some (b ++ [Item.eos])) } w < instW s w := by
-    have := streamW_append_eos b hne
-    simp [instW, hp, hlive, hst]; omega
-  refine measure_lt_of_local rfl rfl rfl rfl
-    (instW_le_of_local hi hp hlive (fun x _ => rfl) (by intro k hk; simp [hk]) (Nat.le_of_lt hlt)) w ?_ hlt
-  by_cases hpp : p = .pending
-  · subst hpp; exact Or.inl ((hi.pend_iff w).2 hp)
-  · exact Or.inr ((hi.run_iff w).2 ⟨p, hp, hpp⟩)
+  refine local_effect φ hi hp hlive rfl rfl rfl (fun x _ => rfl) (by intro k hk; simp [hk]) ?_
+  have := streamW_append_eos b hne
+  simp [instW, hp, hlive, hst]; omega
 
-theorem measure_close_aux {s s' : State} (hpc : s'.pc = s.pc) (hst : s'.streams = s.streams)
-    (hh : s'.hand = s.hand) (hp : s'.pendingQ = s.pendingQ) (hr : s'.running = s.running)
-    (hc : s.closed = false) (hc' : s'.closed = true) : measure s' < measure s := by
-  simp [measure, instW_congr hpc hst, hh, hp, hr, hc, hc']
-
-theorem measure_close {s s' : State} (h : step s .close = some s') : measure s' < measure s := by
-  step_cases h
-  rename_i hg
-  exact measure_close_aux rfl rfl rfl rfl rfl hg.2 rfl
-
-theorem measure_spawn_aux {s s' : State} (hi : Inv s) (w : Wid) (rest : List Wid)
+theorem effect_spawn_aux {φ : Key → Bool} {s s' : State} (hi : Inv s) (w : Wid) (rest : List Wid)
     (hq : s.pendingQ = w :: rest) (hpc : s'.pc = upd s.pc w (some .spawned))
     (hst : s'.streams = s.streams) (hp : s'.pendingQ = rest) (hr : s'.running = s.running ++ [w])
-    (hh : s'.hand = s.hand) (hc : s'.closed = s.closed) : measure s' < measure s := by
+    (hh : s'.hand = s.hand) : Effect φ w.key s s' := by
   have hpw : s.pc w = some .pending := (hi.pend_iff w).1 (by simp [hq])
   have hnd := hi.pend_nodup
   rw [hq] at hnd
@@ -224,50 +240,74 @@ theorem measure_spawn_aux {s s' : State} (hi : Inv s) (w : Wid) (rest : List Wid
     rw [hpw] at hp; cases hp; exact hne rfl
   have hoth : ∀ x, x ≠ w → instW s' x = instW s x := by
     intro x hx; simp [instW, hpc, hst, hx]
-  have h1 := sumW_congr (l := rest) (fun x hx => hoth x (fun h => hwr (h ▸ hx)))
-  have h2 := sumW_congr (l := s.running) (fun x hx => hoth x (fun h => hwrun (h ▸ hx)))
-  have h3 : instW s' w + 1 = instW s w := by simp [instW, hpc, hst, hpw, pcW]; omega
-  simp only [measure, hq, hp, hr, hh, hc, sumW_cons, sumW_append, sumW_nil]
-  rw [h1, h2]
-  omega
+  constructor
+  · intro hφ
+    have h1 := sumW_congr (l := onKeys φ rest) (fun x hx => hoth x (fun h => hwr (h ▸ (mem_onKeys.1 hx).1)))
+    have h2 := sumW_congr (l := onKeys φ s.running)
+      (fun x hx => hoth x (fun h => hwrun (h ▸ (mem_onKeys.1 hx).1)))
+    have h3 : instW s' w + 1 = instW s w := by simp [instW, hpc, hst, hpw, pcW]; omega
+    simp only [measureOn, handW, hq, hp, hr, hh, onKeys, List.filter_cons, List.filter_append, hφ, if_true,
+      List.filter_nil, sumW_cons, sumW_append, sumW_nil]
+    simp only [onKeys] at h1 h2
+    rw [h1, h2]
+    omega
+  · intro hφ
+    refine measureOn_frame (by simp [handW, hh]) ?_ ?_ ?_
+    · simp [onKeys, hp, hq, List.filter_cons, hφ]
+    · simp [onKeys, hr, List.filter_append, List.filter_cons, hφ]
+    · intro x hx
+      exact hoth x (fun h => by rw [h, hφ] at hx; cases hx)
 
-theorem measure_spawn {s s' : State} (hi : Inv s) (h : step s .spawn = some s') :
-    measure s' < measure s := by
+theorem effect_spawn {φ : Key → Bool} {s s' : State} (hi : Inv s) (h : step s .spawn = some s') :
+    ∃ w rest, s.pendingQ = w :: rest ∧ Effect φ w.key s s' := by
   step_cases h
   rename_i _ w rest hq hcs
-  exact measure_spawn_aux hi w rest hq rfl rfl rfl rfl rfl rfl
+  exact ⟨w, rest, hq, effect_spawn_aux hi w rest hq rfl rfl rfl rfl rfl⟩
 
-theorem measure_left_aux {s s' : State} (hi : Inv s) (w : Wid) (f : Bool)
+theorem effect_left_aux {φ : Key → Bool} {s s' : State} (hi : Inv s) (w : Wid) (f : Bool)
     (hpw : s.pc w = some (.leaving f)) (hpc : s'.pc = upd s.pc w none) (hst : s'.streams = s.streams)
     (hp : s'.pendingQ = s.pendingQ) (hr : s'.running = s.running.filter (fun x => x ≠ w))
-    (hh : s'.hand = if f = true then none else s.hand) (hc : s'.closed = s.closed) :
-    measure s' < measure s := by
+    (hh : s'.hand = if f = true then none else s.hand) :
+    (φ w.key = true → measureOn φ s' < measureOn φ s) ∧ (φ w.key = false → measureOn φ s' ≤ measureOn φ s) := by
   have hwp : w ∉ s.pendingQ := by
     intro hm; have := (hi.pend_iff w).1 hm; rw [hpw] at this; cases this
   have hwr : w ∈ s.running := (hi.run_iff w).2 ⟨_, hpw, by simp⟩
   have hoth : ∀ x, x ≠ w → instW s' x = instW s x := by
     intro x hx; simp [instW, hpc, hst, hx]
-  have h1 := sumW_congr (l := s.pendingQ) (fun x hx => hoth x (fun h => hwp (h ▸ hx)))
-  have h2 := sumW_congr (l := s.running.filter (fun x => x ≠ w))
+  have h5 : handW φ s' ≤ handW φ s := by
+    unfold handW; rw [hh]; cases f <;> simp
+  have h1 := sumW_congr (l := onKeys φ s.pendingQ)
+    (fun x hx => hoth x (fun h => hwp (h ▸ (mem_onKeys.1 hx).1)))
+  have hcomm : onKeys φ (s.running.filter (fun x => x ≠ w)) = (onKeys φ s.running).filter (fun x => x ≠ w) := by
+    simp [onKeys, List.filter_filter, Bool.and_comm]
+  have h2 := sumW_congr (l := (onKeys φ s.running).filter (fun x => x ≠ w))
     (fun x hx => hoth x (by simpa using (List.mem_filter.1 hx).2))
-  have h3 := sumW_filter_drop (instW s) (fun x => x ≠ w) s.running w hwr (by simp)
-  have h4 : instW s w = 1 := by simp [instW, hpw, pcW]
-  have h5 : (if s'.hand.isSome = true then 8 else 0) ≤ (if s.hand.isSome = true then 8 else 0) := by
-    rw [hh]; cases f <;> simp
-  simp only [measure, hp, hr, hc]
-  rw [h1, h2]
-  omega
+  have hle := sumW_filter_le (instW s) (fun x => x ≠ w) (onKeys φ s.running)
+  constructor
+  · intro hφ
+    have h3 := sumW_filter_drop (instW s) (fun x => x ≠ w) (onKeys φ s.running) w
+      (mem_onKeys.2 ⟨hwr, hφ⟩) (by simp)
+    have h4 : instW s w = 1 := by simp [instW, hpw, pcW]
+    simp only [measureOn, hp, hr, hcomm]
+    rw [h1, h2]
+    omega
+  · intro _
+    simp only [measureOn, hp, hr, hcomm]
+    rw [h1, h2]
+    omega
 
-theorem measure_left {s s' : State} {w : Wid} (hi : Inv s) (h : step s (.left w) = some s') :
-    measure s' < measure s := by
+theorem effect_left {φ : Key → Bool} {s s' : State} {w : Wid} (hi : Inv s)
+    (h : step s (.left w) = some s') :
+    (φ w.key = true → measureOn φ s' < measureOn φ s) ∧ (φ w.key = false → measureOn φ s' ≤ measureOn φ s) := by
   step_cases h
-  all_goals (rename_i _ f hp hf; exact measure_left_aux hi w f hp rfl rfl rfl rfl (by simp [hf]) rfl)
+  all_goals (rename_i _ f hp hf; exact effect_left_aux hi w f hp rfl rfl rfl rfl (by simp [hf]))
 
-theorem measure_insert_aux {s s' : State} (hi : Inv s) (k : Key) (e : Ev) (hh : s.hand = some (k, e))
+theorem effect_insert_aux {φ : Key → Bool} {s s' : State} (hi : Inv s) (k : Key) (e : Ev)
+    (hh : s.hand = some (k, e))
     (hpc : s'.pc = upd s.pc ⟨k, s.nextGen k⟩ (some .pending))
     (hst : s'.streams = upd s.streams k (some [Item.ev e]))
     (hp : s'.pendingQ = s.pendingQ ++ [⟨k, s.nextGen k⟩]) (hr : s'.running = s.running)
-    (hh' : s'.hand = none) (hc : s'.closed = s.closed) : measure s' < measure s := by
+    (hh' : s'.hand = none) : Effect φ k s s' := by
   have hnone := (hi.hand_none k e hh).1
   have hfresh : s.pc ⟨k, s.nextGen k⟩ = none := hi.fresh k _ (Nat.le_refl _)
   have hoth : ∀ x, s.pc x ≠ none → instW s' x = instW s x := by
@@ -280,42 +320,160 @@ theorem measure_insert_aux {s s' : State} (hi : Inv s) (k : Key) (e : Ev) (hh : 
       · have hk : x.key ≠ k := fun hk => hi.live_stream x q hq hql (hk ▸ hnone)
         simp [instW, hpc, hst, hxw, hq, hql, hk]
       · simp [instW, hpc, hst, hxw, hq, hql]
-  have h1 := sumW_congr (l := s.pendingQ) (fun x hx => hoth x (by rw [(hi.pend_iff x).1 hx]; simp))
-  have h2 := sumW_congr (l := s.running) (fun x hx => hoth x (by
-    obtain ⟨p, hp, _⟩ := (hi.run_iff x).1 hx; rw [hp]; simp))
+  have h1 := sumW_congr (l := onKeys φ s.pendingQ)
+    (fun x hx => hoth x (by rw [(hi.pend_iff x).1 (mem_onKeys.1 hx).1]; simp))
+  have h2 := sumW_congr (l := onKeys φ s.running) (fun x hx => hoth x (by
+    obtain ⟨p, hp, _⟩ := (hi.run_iff x).1 (mem_onKeys.1 hx).1; rw [hp]; simp))
   have h3 : instW s' ⟨k, s.nextGen k⟩ = 7 := by simp [instW, hpc, hst, pcW, streamW, itemW]
-  simp only [measure, hp, hr, hh, hh', hc, sumW_append, sumW_cons, sumW_nil]
-  rw [h1, h2, h3]
-  simp
-  omega
+  constructor
+  · intro hφ
+    simp only [measureOn, handW, hp, hr, hh, hh', onKeys, List.filter_append, List.filter_cons, hφ, if_true,
+      List.filter_nil, sumW_append, sumW_cons, sumW_nil]
+    simp only [onKeys] at h1 h2
+    rw [h1, h2, h3]
+    omega
+  · intro hφ
+    simp only [measureOn, handW, hp, hr, hh, hh', onKeys, List.filter_append, List.filter_cons, hφ,
+      List.filter_nil, sumW_append, sumW_nil]
+    simp only [onKeys] at h1 h2
+    rw [h1, h2]
+    simp
 
-theorem measure_insert {s s' : State} (hi : Inv s) (h : step s .insert = some s') :
-    measure s' < measure s := by
+theorem effect_insert {φ : Key → Bool} {s s' : State} (hi : Inv s) (h : step s .insert = some s') :
+    ∃ k e, s.hand = some (k, e) ∧ Effect φ k s s' := by
   step_cases h
   rename_i _ k e hh
-  exact measure_insert_aux hi k e hh rfl rfl rfl rfl rfl rfl
+  exact ⟨k, e, hh, effect_insert_aux hi k e hh rfl rfl rfl rfl rfl⟩
 
-/-- every internal label strictly decreases the measure -/
-theorem measure_step {s s' : State} {l : Label} (hi : Inv s) (hl : l.internal = true)
-    (h : step s l = some s') : measure s' < measure s := by
+/-- an arrival for a key that is not selected changes nothing for the selected ones -/
+theorem effect_arrive {φ : Key → Bool} {s s' : State} {k : Key} {e : Ev}
+    (h : step s (.arrive k e) = some s') (hφ : φ k = false) : measureOn φ s' = measureOn φ s := by
+  step_cases h
+  refine measureOn_frame rfl rfl rfl ?_
+  intro x hx
+  have hk : x.key ≠ k := fun hk => by rw [hk, hφ] at hx; cases hx
+  exact instW_eq_of rfl (by simp [hk])
+
+theorem effect_miss {φ : Key → Bool} {s s' : State} {k : Key} {e : Ev}
+    (h : step s (.miss k e) = some s') (hφ : φ k = false) : measureOn φ s' = measureOn φ s := by
+  step_cases h
+  rename_i hg
+  refine measureOn_frame (by simp [handW, hg.2.1, hφ]) rfl rfl (fun x _ => rfl)
+
+theorem effect_cancel {φ : Key → Bool} {s s' : State} (h : step s .cancelWatcher = some s') :
+    measureOn φ s' ≤ measureOn φ s := by
+  step_cases h
+  have : handW φ { s with closing := true, hand := none } ≤ handW φ s := by simp [handW]
+  unfold measureOn
+  have e1 : instW { s with closing := true, hand := none } = instW s := rfl
+  simp only [e1]
+  omega
+
+theorem effect_close {φ : Key → Bool} {s s' : State} (h : step s .close = some s') :
+    measureOn φ s' = measureOn φ s ∧ s.closed = false ∧ s'.closed = true := by
+  step_cases h
+  rename_i hg
+  exact ⟨rfl, hg.2, rfl⟩
+
+/-- every label: a segment of a selected key strictly decreases `measureOn φ`; nothing except an
+    arrival for a selected key increases it -/
+theorem measureOn_step {φ : Key → Bool} {s s' : State} {l : Label} (hi : Inv s)
+    (h : step s l = some s') :
+    (∀ k, l.key? s = some k → φ k = true → l.internal = true → measureOn φ s' < measureOn φ s) ∧
+    ((∀ k, l.key? s = some k → φ k = false) → measureOn φ s' ≤ measureOn φ s) := by
   cases l with
-  | arrive k e => simp [Label.internal] at hl
-  | miss k e => simp [Label.internal] at hl
-  | cancelWatcher => simp [Label.internal] at hl
-  | insert => exact measure_insert hi h
-  | spawn => exact measure_spawn hi h
-  | start w => exact measure_start hi h
-  | take w e => exact measure_take hi h
-  | timeoutTake w e => exact measure_ttake hi h
-  | finish w => exact measure_finish hi h
-  | fail w => exact measure_fail hi h
-  | retire w => exact measure_retire hi h
+  | arrive k e =>
+    refine ⟨fun _ _ _ hl => by simp [Label.internal] at hl, fun hk => ?_⟩
+    exact Nat.le_of_eq (effect_arrive h (hk k rfl))
+  | miss k e =>
+    refine ⟨fun _ _ _ hl => by simp [Label.internal] at hl, fun hk => ?_⟩
+    exact Nat.le_of_eq (effect_miss h (hk k rfl))
+  | cancelWatcher => exact ⟨fun _ hk => by simp [Label.key?] at hk, fun _ => effect_cancel h⟩
+  | close => exact ⟨fun _ hk => by simp [Label.key?] at hk, fun _ => Nat.le_of_eq (effect_close h).1⟩
+  | insert =>
+    obtain ⟨k, e, hh, he⟩ := effect_insert (φ := φ) hi h
+    refine ⟨fun k' hk' hφ _ => ?_, fun hk => ?_⟩
+    · simp [Label.key?, hh] at hk'; subst hk'; exact he.1 hφ
+    · exact Nat.le_of_eq (he.2 (hk k (by simp [Label.key?, hh])))
+  | spawn =>
+    obtain ⟨w, rest, hq, he⟩ := effect_spawn (φ := φ) hi h
+    refine ⟨fun k' hk' hφ _ => ?_, fun hk => ?_⟩
+    · simp [Label.key?, hq] at hk'; subst hk'; exact he.1 hφ
+    · exact Nat.le_of_eq (he.2 (hk w.key (by simp [Label.key?, hq])))
+  | left w =>
+    have he := effect_left (φ := φ) hi h
+    refine ⟨fun k' hk' hφ _ => ?_, fun hk => he.2 (hk w.key rfl)⟩
+    simp [Label.key?] at hk'; subst hk'; exact he.1 hφ
   | retireCheck w => step_cases h; rename_i hg; simp at hg
   | retireErase w => step_cases h; rename_i hg; simp at hg
-  | eosExit w => exact measure_eosExit hi h
-  | left w => exact measure_left hi h
-  | eosPut k => exact measure_eosPut hi h
-  | close => exact measure_close h
-  | kill w => exact measure_kill hi h
+  | eosPut k =>
+    have he := effect_eosPut (φ := φ) hi h
+    refine ⟨fun k' hk' hφ _ => ?_, fun hk => Nat.le_of_eq (he.2 (hk k rfl))⟩
+    simp [Label.key?] at hk'; subst hk'; exact he.1 hφ
+  | start w =>
+    have he := effect_start (φ := φ) hi h
+    refine ⟨fun k' hk' hφ _ => ?_, fun hk => Nat.le_of_eq (he.2 (hk w.key rfl))⟩
+    simp [Label.key?] at hk'; subst hk'; exact he.1 hφ
+  | take w e =>
+    have he := effect_take (φ := φ) hi h
+    refine ⟨fun k' hk' hφ _ => ?_, fun hk => Nat.le_of_eq (he.2 (hk w.key rfl))⟩
+    simp [Label.key?] at hk'; subst hk'; exact he.1 hφ
+  | timeoutTake w e =>
+    have he := effect_ttake (φ := φ) hi h
+    refine ⟨fun k' hk' hφ _ => ?_, fun hk => Nat.le_of_eq (he.2 (hk w.key rfl))⟩
+    simp [Label.key?] at hk'; subst hk'; exact he.1 hφ
+  | finish w =>
+    have he := effect_finish (φ := φ) hi h
+    refine ⟨fun k' hk' hφ _ => ?_, fun hk => Nat.le_of_eq (he.2 (hk w.key rfl))⟩
+    simp [Label.key?] at hk'; subst hk'; exact he.1 hφ
+  | fail w =>
+    have he := effect_fail (φ := φ) hi h
+    refine ⟨fun k' hk' hφ _ => ?_, fun hk => Nat.le_of_eq (he.2 (hk w.key rfl))⟩
+    simp [Label.key?] at hk'; subst hk'; exact he.1 hφ
+  | retire w =>
+    have he := effect_retire (φ := φ) hi h
+    refine ⟨fun k' hk' hφ _ => ?_, fun hk => Nat.le_of_eq (he.2 (hk w.key rfl))⟩
+    simp [Label.key?] at hk'; subst hk'; exact he.1 hφ
+  | eosExit w =>
+    have he := effect_eosExit (φ := φ) hi h
+    refine ⟨fun k' hk' hφ _ => ?_, fun hk => Nat.le_of_eq (he.2 (hk w.key rfl))⟩
+    simp [Label.key?] at hk'; subst hk'; exact he.1 hφ
+  | kill w =>
+    have he := effect_kill (φ := φ) hi h
+    refine ⟨fun k' hk' hφ _ => ?_, fun hk => Nat.le_of_eq (he.2 (hk w.key rfl))⟩
+    simp [Label.key?] at hk'; subst hk'; exact he.1 hφ
+
+/-- every internal label strictly decreases the global measure -/
+theorem measure_step {s s' : State} {l : Label} (hi : Inv s) (hl : l.internal = true)
+    (h : step s l = some s') : measure s' < measure s := by
+  have hcl : s'.closed = true → s.closed = true ∨ l = .close := by
+    intro hc
+    cases l <;> step_cases h <;> simp_all
+  by_cases hclose : l = .close
+  · subst hclose
+    obtain ⟨he, h1, h2⟩ := effect_close (φ := fun _ => true) h
+    simp [measure, he, h1, h2]
+  · have hmono : s.closed = true → s'.closed = true := by
+      intro hc
+      cases l <;> step_cases h <;> simp_all
+    have hflag : (if s'.closed then 0 else 1) ≤ (if s.closed then 0 else 1) := by
+      cases hc' : s'.closed with
+      | false =>
+        cases hc : s.closed with
+        | false => simp
+        | true => rw [hmono hc] at hc'; cases hc'
+      | true =>
+        rcases hcl hc' with h1 | h1
+        · simp [h1]
+        · exact absurd h1 hclose
+    have hkey : ∃ k, l.key? s = some k := by
+      cases l <;> simp [Label.internal] at hl <;> simp [Label.key?]
+      · obtain ⟨k, e, hh, _⟩ := effect_insert (φ := fun _ => true) hi h; simp [hh]
+      · obtain ⟨w, rest, hq, _⟩ := effect_spawn (φ := fun _ => true) hi h; simp [hq]
+      · exact absurd rfl hclose
+    obtain ⟨k, hk⟩ := hkey
+    have := (measureOn_step (φ := fun _ => true) hi h).1 k hk rfl hl
+    simp only [measure]
+    omega
 
 end Kopf.C01
